@@ -417,6 +417,16 @@ def run_eq(case, ctx):
 			return SignatureArray(sigs, spec, dtype=np.dtype(dt))
 		if kind == 'list':
 			return SignatureList(sigs, spec, dtype=np.dtype(dt))
+		if kind in ('annotated', 'hdf5_meta') and len(sigs):
+			# reference sets carrying the SAME release metadata (id, version) and the same IDs on both sides: equality is still about content
+			from gambit.sigs.base import AnnotatedSignatures, SignaturesMeta
+			meta = SignaturesMeta(id='verif/release', version='1.0', name='same release', id_attr='key')
+			ann = AnnotatedSignatures(SignatureArray(sigs, spec, dtype=np.dtype(dt)), [f'id{i}' for i in range(len(sigs))], meta)
+			if kind == 'annotated':
+				return ann
+			path = ctx.fresh_path('.gs')
+			dump_signatures(path, ann)
+			return load_signatures(path)
 		path = ctx.fresh_path('.gs')
 		dump_signatures(path, SignatureArray(sigs, spec, dtype=np.dtype(dt)))
 		return load_signatures(path)
@@ -651,7 +661,7 @@ def gen_case(draw, tier):
 			st.just({'t': 'none'}),
 		))
 		return {'kind': 'eq', 'lens': lens, 'spec1': spec1, 'spec2': spec2, 'change': change,
-		        'c1': draw(st.sampled_from(CONTAINERS)), 'c2': draw(st.sampled_from(CONTAINERS)),
+		        'c1': draw(st.sampled_from(CONTAINERS + ['annotated', 'hdf5_meta', 'hdf5_meta'])), 'c2': draw(st.sampled_from(CONTAINERS + ['annotated', 'hdf5_meta', 'hdf5_meta'])),
 		        'dt1': draw(st.sampled_from(['u2', 'u4'])), 'dt2': draw(st.sampled_from(['u2', 'u4', 'u8', 'i8']))}
 	# history
 	r = st.integers(-8, 8)
